@@ -721,3 +721,67 @@ ANCHORS = [('swh/model/model.py', '_compute_hash_from_manifest'),
            ('swh/model/model.py', 'BaseHashableModel.*'),
            ('swh/model/model.py', 'HashableObjectWithManifest.compute_hash'),
            ('swh/model/model.py', 'HashableObjectWithManifest.check')]
+
+
+COQ_REQS_PER_CASE = 6
+
+
+def coq_cases(cases):
+    """construct / evolve / compute_hash / check / swhid with H := Sha1.sha1 evaluated by vm_compute inside Coq vs the extracted
+    driver, on up to 6 of the driver requests of each sampled case (only requests with short manifests: every request
+    costs about six executable SHA-1 runs); one checksum per case (extraction cross-check)"""
+    from . import core
+    per_case = []
+    for c in cases:
+        ires = impl(c)
+        rqs = [r for r in (requests(c, ires) if "error" not in ires else []) if len(r) <= 500]
+        rqs = list(dict.fromkeys(rqs))
+        step = max(1, len(rqs) // COQ_REQS_PER_CASE)
+        per_case.append((c, rqs[::step][:COQ_REQS_PER_CASE]))
+    per_case = [(c, r) for c, r in per_case if r]
+    cases[:] = [c for c, _ in per_case]       # in place: the evidence's `n` is the number of cases evaluated
+    KIND = {"origin": "KOrigin", "snapshot": "KSnapshot", "release": "KRelease", "revision": "KRevision", "directory": "KDirectory",
+            "raw_extrinsic_metadata": "KRawExtrinsicMetadata", "extid": "KExtID"}
+
+    def nl(h):
+        return "[" + "; ".join("%d" % b for b in core.unhx(h)) + "]%N"
+    def ob(s):
+        return "None" if s == "-" else "(Some %s)" % nl(s)
+    def arg(s):
+        return "None" if s == "=" else "(Some %s)" % ob(s)
+    def term(rq):
+        w = rq.split(" ")
+        base = "construct sha1 %s %s %s %s" % (KIND[w[1]], ob(w[2]), arg(w[3]), nl(w[4]))
+        if w[0] == "new":
+            return "show (%s)" % base
+        return ("match %s with Err e => [50%%N; en e] | Ok o => show (evolve sha1 o {| ch_attrs := %s; ch_raw := %s; ch_id := %s |}) end"
+                % (base, arg(w[5]), arg(w[6]), "None" if w[7] == "=" else "(Some %s)" % nl(w[7])))
+    src = ("From Coq Require Import List NArith.\nFrom SWH.lib Require Import Bytes Sha1.\nFrom SWH.model Require Import Ident.\n"
+           "Import ListNotations.\n" + core.COQ_CHECKSUM + """
+Definition en (e : err) : N := match e with TypeError => 1 | ValueError => 2 | ValidationError => 3 | AttributeError => 4 end%N.
+Definition show (r : result hobj) : list N := match r with
+  | Err e => [en e]
+  | Ok o => [60%N] ++ h_id o ++ [330%N] ++ match compute_hash sha1 o with Ok h => h | Err e => [331%N; en e] end
+            ++ [332%N] ++ match check sha1 o with Ok _ => [0%N] | Err e => [en e] end
+            ++ [333%N] ++ match swhid o with Ok (t, i) => t ++ [334%N] ++ i | Err e => [335%N; en e] end end.
+""" + "Definition cases : list (list (list N)) := [" +
+           ";\n ".join("[" + ";\n  ".join(term(r) for r in rqs) + "]" for _, rqs in per_case) + "].\n"
+           "Eval vm_compute in map (fun rs => cksum (map cksum rs)) cases.\n")
+    EN = {"TypeError": 1, "ValueError": 2, "ValidationError": 3, "AttributeError": 4}
+    def answer(r):
+        w = r.split(" ")
+        if w[0] == "err":
+            return [50, EN[w[2]]] if w[1] == "base" else [EN[w[1]]]
+        _, i, ch, ck, sw = w
+        l = [60] + list(core.unhx(i)) + [330] + ([331, EN[ch[1:]]] if ch.startswith("!") else list(core.unhx(ch)))
+        l += [332] + ([0] if ck == "ok" else [EN[ck[1:]]]) + [333]
+        if sw.startswith("!"):
+            l += [335, EN[sw[1:]]]
+        else:
+            t, si = sw.split(":")
+            l += list(t.encode("latin1")) + [334] + list(core.unhx(si))
+        return l
+    flat = [r for _, rqs in per_case for r in rqs]
+    resp = iter(core.run_driver(ID, flat))
+    exp = [core.py_cksum([core.py_cksum(answer(next(resp))) for _ in rqs]) for _, rqs in per_case]
+    return src, exp
